@@ -22,6 +22,7 @@ import QV.Model.Stats
 import QV.Lemmas.Stats
 
 namespace QV.Props
+namespace C13
 open QV QV.Stats
 
 /-! ### Specification: one-pass statistics of a list of reals -/
@@ -487,4 +488,5 @@ example (env : Env ℕ) (a : Args ℕ) :
 example : numTimeSteps 7 3 = .ok 3 := by decide
 example : numTimeSteps 0 0 = .error .ZeroDivisionError := by decide
 
+end C13
 end QV.Props
